@@ -5,6 +5,17 @@ COMMON_TRUST = [
 ]
 
 PROPS = {
+    "C01": dict(
+        title="unification (State::unify vs unifyF)",
+        props_module="PvModel.Props.C01",
+        rule="a history of 0-4 successful State::unify calls followed by one unification of generated terms (literals of all kinds, "
+             "shared variables, proper/improper lists, three compound types, depth<=4, occurs-check targets); observable: fail or the "
+             "canonically renamed tuple (walk* u, walk* v, walk* x_i); non-trivial = success with >=1 binding, or failure below the root; "
+             "distinct = distinct case lines",
+        trusted=COMMON_TRUST + ["triangular SMap (HashMap, walk chains) is modelled by an idempotent substitution function; only walk*/success/failure are compared"],
+        assumptions=["User terms and Projection terms are outside the Term model"],
+        open=[],
+    ),
     "C18": dict(
         title="FiniteDomain set semantics",
         props_module="PvModel.Props.C18",
